@@ -47,6 +47,7 @@ structure DS where
   lg : List (Nat × Float) := []    -- math.Log(N/dc) table for the TF-IDF model
   tfIdx : Option (Tfidf.Index Float) := none   -- model TF-IDF index, built once per case
   nlpDb : Option (List Cmd) := none            -- database the NLP factors are computed for, if not `db` (domain c03)
+  nqSeen : Bool := false                       -- an `nq` line was read: `pq` / `ib` / `cb` lines describe the normalised query `nq`
   cache : Option NlpCache := none              -- memo of the model's NLP layer for `nq` (reset whenever db / ri / nq change)
 
 /-- the commands the per-document NLP factors refer to -/
@@ -111,6 +112,10 @@ def fmtFloatList (l : List Float) : String :=
 def oracleCheck (what : String) (same : Bool) (model : String) : String :=
   if same then "ok" else s!"oracle-differs-from-model {what} model={model}"
 
+/- Oracle lines are compared with the model only when they describe SearchUniversal's normalised query (an `nq` line
+   precedes them: domains search, c03, legacy).  Domain legacy2 feeds `pq` / `ib` of the *raw* query to the legacy
+   SearchWithNLP model without an `nq` line: there they stay inputs (`DS.nqSeen`). -/
+
 def sameBits (a b : List Float) : Bool := a.length == b.length && (a.zip b).all (fun (x, y) => x.toBits == y.toBits)
 
 def fmtResults (r : Except Fuzzy.Panic (List (Nat × Float))) : String :=
@@ -150,11 +155,12 @@ def step (d : DS) (l : String) : DS × String :=
     | some df, some v => ({ d with idf := (df, v) :: d.idf }, "ok")
     | _, _ => (d, "bad-op")
   | ["nq", h] => match Bytes.ofHex h with
-    | some b => ({ d with nq := b, cache := none }, "ok")
+    | some b => ({ d with nq := b, nqSeen := true, cache := none }, "ok")
     | none => (d, "bad-op")
   | ["pq", a, t, k, e] =>
     match bytesList? a, bytesList? t, bytesList? k, bytesList? e with
     | some a, some t, some k, some e =>
+      if !d.nqSeen then ({ d with actions := a, targets := t, keywords := k, enhanced := e }, "ok") else
       let (d, c) := withCache d
       let n := c.out
       ({ d with actions := a, targets := t, keywords := k, enhanced := e },
@@ -163,11 +169,13 @@ def step (d : DS) (l : String) : DS × String :=
     | _, _, _, _ => (d, "bad-op")
   | ["ib", v] => match floatList? v with
     | some l =>
+      if !d.nqSeen then ({ d with ib := l.toArray }, "ok") else
       let (d, c) := withCache d
       ({ d with ib := l.toArray }, oracleCheck "ib" (sameBits c.ib l) (fmtFloatList c.ib))
     | none => (d, "bad-op")
   | ["cb", v] => match floatList? v with
     | some l =>
+      if !d.nqSeen then ({ d with cb := l.toArray }, "ok") else
       let (d, c) := withCache d
       ({ d with cb := l.toArray }, oracleCheck "cb" (sameBits c.cb l) (fmtFloatList c.cb))
     | none => (d, "bad-op")
